@@ -64,7 +64,7 @@ def register(reg):
                      canaries=['len(result) == 0']))
     # ---------------------------------------------------------------- Sample
     reg.add(Contract(F, 'Sample.__init__', {'self': KRec('Sample'), 'sample_size': Int},
-                     raises={'ValueError': 'sample_size < 1'}, modifies=['self._sample_size'],
+                     raises={'ValueError': 'sample_size < 1'}, modifies=[('self._sample_size', Int)],
                      ensures=['self._sample_size == sample_size']))
     reg.add(Contract(
         F, 'Sample.gen_indices', {'self': SAMPLE, 'length': Int}, requires=SAMPLE_REQ, yields=Int,
@@ -95,3 +95,103 @@ def register(reg):
                      ensures=['result == smp_count(self._sample_size, length)'], canaries=['result == 0']))
     reg.add(Contract(F, 'Sample.first', {'self': SAMPLE, 'length': Int}, requires=SAMPLE_REQ, returns=Int,
                      ensures=['result == 0'], canaries=['result == 1']))
+
+
+    # ---------------------------------------------------------------- option string parser (string builtins abstract)
+    reg.add(Contract(F, 'Slice.__init__', {'self': KRec('Slice'), 'start': KOpt(Int), 'stop': KOpt(Int), 'step': KOpt(Int)},
+                     modifies=[('self._slice', KRec('slice', start=KOpt(Int), stop=KOpt(Int), step=KOpt(Int)))], trusted=True,
+                     ensures=['self._slice.start == start', 'self._slice.stop == stop', 'self._slice.step == step'],
+                     note='Slice.__init__ (type checks through locals()) stores slice(start, stop, step)'), verify=False)
+    PART = ('(is_none({f}) if (py_strip(split_part(slice_string, {i})) == "None" or py_strip(split_part(slice_string, {i})) == "")'
+            ' else ({f} == py_int(py_strip(split_part(slice_string, {i})))))')
+    BADPART = ('(py_strip(split_part(slice_string, {i})) != "None" and py_strip(split_part(slice_string, {i})) != ""'
+               ' and not py_int_ok(py_strip(split_part(slice_string, {i}))))')
+    reg.add(Contract(
+        F, 'create_slice_or_sample', {'slice_string': Str},
+        raises={'ValueError':
+                # a comma: wrong number of parts, or a part that is neither absent ('' / 'None') nor an integer
+                '(contains(slice_string, ",") and (split_len(slice_string) != 3 or exists(0, split_len(slice_string), lambda k:'
+                ' py_strip(split_part(slice_string, k)) != "None" and py_strip(split_part(slice_string, k)) != ""'
+                ' and not py_int_ok(py_strip(split_part(slice_string, k))))))'
+                # no comma: not an integer, or a sample size below one
+                ' or (not contains(slice_string, ",") and (not py_int_ok(slice_string) or py_int(slice_string) < 1))'},
+        ensures=['cls_is(result, "Slice") == contains(slice_string, ",")', 'cls_is(result, "Sample") == (not contains(slice_string, ","))',
+                 '((%s) and (%s) and (%s)) if cls_is(result, "Slice") else (result._sample_size == py_int(slice_string))'
+                 % (PART.format(f='result._slice.start', i=0), PART.format(f='result._slice.stop', i=1), PART.format(f='result._slice.step', i=2))],
+        canaries=['cls_is(result, "Slice")', 'cls_is(result, "Sample")'], crosscheck=False))
+
+
+def standins(tier, seed):
+    """create_slice_or_sample on real strings (split / strip / int are abstract in the proof): all strings over a small
+    alphabet against an independent reference parser; Slice vs Python slicing exhaustively for small n."""
+    from pyvc import standin
+    maxlen = 6 if tier == 'quick' else 8
+    code = r'''
+import itertools, re
+from TotalDepth.common import Slice
+INT = re.compile(r'^[+-]?[0-9]+$')
+def ref(s):
+    """reference parser written from the option's documentation"""
+    if ',' in s:
+        parts = [p.strip() for p in s.split(',')]
+        if len(parts) != 3:
+            return 'error'
+        vals = []
+        for p in parts:
+            if p in ('', 'None'):
+                vals.append(None)
+            elif INT.match(p):
+                vals.append(int(p))
+            else:
+                return 'error'
+        return ('slice', tuple(vals))
+    p = s.strip()
+    if not INT.match(p) or int(p) < 1:
+        return 'error'
+    return ('sample', int(p))
+bad = []
+cases = 0
+ALPHA = '1-, Nonex'
+for n in range(0, %d):
+    for tup in itertools.product(ALPHA, repeat=n):
+        s = ''.join(tup)
+        if n >= 5 and s.count(',') not in (0, 2, 3):
+            continue
+        cases += 1
+        want = ref(s)
+        try:
+            r = Slice.create_slice_or_sample(s)
+            got = ('slice', (r._slice.start, r._slice.stop, r._slice.step)) if isinstance(r, Slice.Slice) else ('sample', r._sample_size)
+        except ValueError:
+            got = 'error'
+        except Exception as e:
+            got = 'exception %%r' %% (e,)
+        if got != want and len(bad) < 5:
+            bad.append({'option_string': s, 'got': repr(got), 'want': repr(want)})
+# Slice against Python slicing, Sample against its statement, exhaustively for small n
+for n in range(0, 9):
+    for start in [None] + list(range(-10, 11)):
+        for stop in [None] + list(range(-10, 11)):
+            for step in [None, 1, 2, 3, 7]:
+                cases += 1
+                sl = Slice.Slice(start, stop, step)
+                want = list(range(n))[start:stop:step]
+                if sl.indices(n) != want or list(sl.gen_indices(n)) != want or sl.count(n) != len(want) or (want and sl.first(n) != want[0]):
+                    if len(bad) < 5:
+                        bad.append({'slice': [start, stop, step], 'n': n})
+    for N in range(1, 12):
+        cases += 1
+        sm = Slice.Sample(N)
+        idx = sm.indices(n)
+        gaps = [b - a for a, b in zip(idx, idx[1:])]
+        if len(idx) != min(N, n) or (idx and idx[0] != 0) or any(g <= 0 for g in gaps) or (gaps and max(gaps) - min(gaps) > 1) \
+                or sm.count(n) != len(idx) or list(sm.gen_indices(n)) != idx or any(i >= n for i in idx):
+            if len(bad) < 5:
+                bad.append({'sample': N, 'n': n, 'indices': idx})
+print(json.dumps({'cases': cases, 'bad': bad}))
+if bad:
+    sys.exit(1)
+''' % (maxlen + 1)
+    return [standin.run('option-strings-and-small-selectors', 'bounded: all option strings over the alphabet "1-, Nonex" up to length %d; '
+                        'all slices with start, stop in -10..10 or absent, step in {absent,1,2,3,7}, n in 0..8; samples 1..11' % maxlen,
+                        'strings up to length %d; n <= 8' % maxlen, code)]
